@@ -155,7 +155,11 @@ func kindProto(v model.Val) datamodel.NodePrototype {
 
 func (c01) RunCase(c *fw.Ctx, rng *fw.RNG, batch, i int) {
 	c01Init()
-	v := model.Gen(rng, c01Opts)
+	opts := c01Opts
+	if deepCase(c, i) {
+		opts.MaxDepth, opts.MaxWidth = 8, 12
+	}
+	v := model.Gen(rng, opts)
 	st := v.Stats()
 	var lastProg string
 	c.SetCase(func() any { return map[string]any{"value": v.Dump(), "program": lastProg} })
